@@ -15,6 +15,27 @@
 /* ---- controlled environment */
 static int g_env_on; static const char *g_home = "/h"; static int g_tmp_mode;     /* g_env_on == 2: only TMPDIR/TMP are controlled (bit0 TMPDIR set, bit1 TMP set) */
 char *__real_getenv(const char *);
+/* HOME lives in one of two static buffers; between two library calls the application may have replaced its environment, so the buffer
+ * handed out before is poisoned (ASan: use-after-poison for a pointer kept across calls) and overwritten */
+#if defined(__has_feature)
+# if __has_feature(address_sanitizer)
+#  include <sanitizer/asan_interface.h>
+#  define ENV_POISON(p, n) __asan_poison_memory_region((p), (n))
+#  define ENV_UNPOISON(p, n) __asan_unpoison_memory_region((p), (n))
+# endif
+#endif
+#ifndef ENV_POISON
+# define ENV_POISON(p, n) ((void) 0)
+# define ENV_UNPOISON(p, n) ((void) 0)
+#endif
+static char g_home_buf[2][64]; static int g_home_cur = -1, g_home_last = 1;
+static void env_new_epoch(void) { if (g_home_cur >= 0) { memset(g_home_buf[g_home_cur], '#', sizeof g_home_buf[0] - 1); ENV_POISON(g_home_buf[g_home_cur], sizeof g_home_buf[0]); g_home_last = g_home_cur; g_home_cur = -1; } }
+static char *env_home_copy(const char *v)
+{
+    if (g_home_cur < 0) { g_home_cur = 1 - g_home_last; ENV_UNPOISON(g_home_buf[g_home_cur], sizeof g_home_buf[0]); }      /* the buffer of the epoch before stays poisoned */
+    snprintf(g_home_buf[g_home_cur], sizeof g_home_buf[0], "%s", v);
+    return g_home_buf[g_home_cur];
+}
 char *__wrap_getenv(const char *name)
 {
     if (g_env_on == 2) {
@@ -23,7 +44,10 @@ char *__wrap_getenv(const char *name)
         return __real_getenv(name);
     }
     if (g_env_on) {
-        if (!strcmp(name, "HOME")) return (char *) g_home;
+        if (!strcmp(name, "HOME")) {        /* every lookup gets its own copy; the previous one is gone (as after putenv() by the application): a pointer kept across calls dangles */
+            if (!g_home) return NULL;
+            return env_home_copy(g_home);
+        }
         if (!strcmp(name, "V")) return (char *) "val";
         if (!strcmp(name, "VV")) return (char *) "x y";
         if (!strcmp(name, "L")) return (char *) "a_rather_long_value_of_forty_characters_";
